@@ -43,12 +43,18 @@ import (
 //     drop report arrive although nothing else is sent. "Stuck" = no frame received for 8 s while
 //     something is missing. Connection failures are not part of these plans (a TCP write that fails
 //     loses data in flight by nature; the statement's "reconnection time" clause is not exercised).
+//   - sustained overload: while both upstreams read slowly the producer keeps offering packets back to
+//     back, so that drops, the sender's report writes and further drops overlap for several cycles; the
+//     same equalities are checked once everything has drained (a drop that falls between reading and
+//     clearing the counter in the sender would be counted in Stats but never reported).
 
 type c31EStep struct {
-	Stall string `json:"stall,omitempty"` // before the gap: "" keep, "none", "prim", "sec", "both" (which upstream stops reading)
-	GapMs int    `json:"gap_ms"`
-	Burst int    `json:"burst"`
-	Size  int    `json:"size"` // body bytes, 1..65535
+	Stall   string `json:"stall,omitempty"` // before the gap: "" keep, "none", "prim", "sec", "both" (which upstream stops reading), "slow" (both read at RateKBs)
+	GapMs   int    `json:"gap_ms"`
+	Burst   int    `json:"burst"`
+	Size    int    `json:"size"`               // body bytes, 1..65535
+	RateKBs int    `json:"rate_kbs,omitempty"` // "slow": read rate of each upstream, KiB/s
+	PushMs  int    `json:"push_ms,omitempty"`  // after the burst keep offering packets back to back for this long (sustained overload)
 }
 
 type c31EPlan struct {
@@ -86,6 +92,7 @@ type c31EFrame struct {
 type c31Upstream struct {
 	ln      net.Listener
 	stalled atomic.Bool
+	rateKBs atomic.Int64 // > 0: read at most this many KiB/s per connection
 	mu      sync.Mutex
 	conns   []*c31UpConn
 	wg      sync.WaitGroup
@@ -129,7 +136,16 @@ func (r c31StallReader) Read(p []byte) (int, error) {
 	for r.up.stalled.Load() {
 		time.Sleep(2 * time.Millisecond)
 	}
-	return r.c.Read(p)
+	rate := r.up.rateKBs.Load()
+	if rate <= 0 {
+		return r.c.Read(p)
+	}
+	if len(p) > 32<<10 {
+		p = p[:32<<10]
+	}
+	n, err := r.c.Read(p)
+	time.Sleep(time.Duration(int64(n) * int64(time.Second) / (rate << 10)))
+	return n, err
 }
 
 func (uc *c31UpConn) read(c net.Conn) {
@@ -313,12 +329,20 @@ func c31RunEgress(p c31EPlan) (res c31EResult) {
 	var body []byte
 	var droppedFrame, droppedBody float64
 	nDropped, nAccepted := 0, 0
+	sustained := false
 	lastCall := time.Now()
 	for si, st := range p.Steps {
 		switch st.Stall {
 		case "none":
-			ups[0].stalled.Store(false)
-			ups[1].stalled.Store(false)
+			for _, u := range ups {
+				u.stalled.Store(false)
+				u.rateKBs.Store(0)
+			}
+		case "slow":
+			for _, u := range ups {
+				u.stalled.Store(false)
+				u.rateKBs.Store(int64(max(st.RateKBs, 1024)))
+			}
 		case "prim":
 			ups[primIdx].stalled.Store(true)
 			res.classes["stall-one-upstream"] = true
@@ -340,7 +364,7 @@ func c31RunEgress(p c31EPlan) (res c31EResult) {
 		if size > pktBodyMax {
 			size = pktBodyMax
 		}
-		for k := 0; k < st.Burst; k++ {
+		offer := func() bool {
 			offMu.Lock()
 			seq := uint64(len(offers))
 			offers = append(offers, c31EOffer{size: size})
@@ -368,13 +392,31 @@ func c31RunEgress(p c31EPlan) (res c31EResult) {
 				droppedBody += float64(frameLen - pktHeadLen)
 				if fillP < bufferLen || fillS < bufferLen {
 					res.violation = fmt.Sprintf("step %d: packet #%d dropped although the send buffers held %d and %d of %d packets just before the call", si, seq, fillP, fillS, bufferLen)
-					return
+					return false
 				}
 			default:
 				res.violation = fmt.Sprintf("step %d: one WritePacketLocked call changed Stats by forwarded=%d dropped=%d (want exactly one of them = 1)", si, s.ForwardedPackets, s.DroppedPackets)
 				return
 			}
+			return true
 		}
+		for k := 0; k < st.Burst; k++ {
+			if !offer() {
+				return
+			}
+		}
+		if st.PushMs > 0 { // sustained overload: the producer does not pause while the senders drain and report
+			res.classes["sustained-push"] = true
+			sustained = true
+			for end := time.Now().Add(time.Duration(st.PushMs) * time.Millisecond); time.Now().Before(end); {
+				if !offer() {
+					return
+				}
+			}
+		}
+	}
+	for _, u := range ups {
+		u.rateKBs.Store(0)
 	}
 	ups[0].stalled.Store(false)
 	ups[1].stalled.Store(false)
@@ -394,6 +436,7 @@ func c31RunEgress(p c31EPlan) (res c31EResult) {
 	check := func(final bool) (done bool, problem string) {
 		seen := map[int64]int{}
 		var reported float64
+		nReports := 0
 		for ui, u := range ups {
 			u.mu.Lock()
 			for ci, c := range u.conns {
@@ -413,6 +456,7 @@ func c31RunEgress(p c31EPlan) (res c31EResult) {
 					}
 					if f.seq < 0 {
 						reported += f.val
+						nReports++
 						continue
 					}
 					if f.seq <= last && problem == "" {
@@ -455,6 +499,9 @@ func c31RunEgress(p c31EPlan) (res c31EResult) {
 		}
 		reportOK := nDropped == 0 && reported == 0 || nDropped > 0 && (reported == droppedFrame || reported == droppedBody)
 		if missing == 0 && reportOK {
+			if sustained && nDropped > 0 && nReports >= 3 {
+				res.classes["sustained-overload-several-reports"] = true
+			}
 			return true, ""
 		}
 		if final {
@@ -472,6 +519,7 @@ func c31RunEgress(p c31EPlan) (res c31EResult) {
 		}
 		return false, ""
 	}
+	drainStart := time.Now()
 	for {
 		done, problem := check(false)
 		if problem != "" {
@@ -480,6 +528,10 @@ func c31RunEgress(p c31EPlan) (res c31EResult) {
 		}
 		if done {
 			break
+		}
+		if time.Since(drainStart) > 3*time.Minute {
+			res.inconclusive = "frames keep arriving but the drain did not finish within 3 minutes"
+			return
 		}
 		lastProgress := time.Unix(0, progress.Load())
 		if lastProgress.Before(lastCall) {
@@ -534,6 +586,19 @@ func c31EgressProp(t vpT, c *c31ECase) (results []c31EResult) {
 		}
 	}
 	return results
+}
+
+// sustained overload: both upstreams read slowly while the producer offers maximum-size packets back to
+// back; drops, report writes and further drops overlap for several cycles; then everything drains.
+func c31GenSustained() *rapid.Generator[c31EPlan] {
+	return rapid.Custom(func(t *rapid.T) c31EPlan {
+		return c31EPlan{Steps: []c31EStep{
+			{GapMs: rapid.IntRange(0, 100).Draw(t, "gap"), Burst: rapid.IntRange(1, 40).Draw(t, "warm"), Size: rapid.IntRange(12, 2000).Draw(t, "size")},
+			{Stall: "slow", RateKBs: rapid.SampledFrom([]int{20 << 10, 40 << 10, 80 << 10, 160 << 10}).Draw(t, "rate"),
+				PushMs: rapid.IntRange(1200, 2200).Draw(t, "pushms"), Size: rapid.IntRange(60000, pktBodyMax).Draw(t, "bigsize")},
+			{Stall: "none", GapMs: rapid.IntRange(0, 300).Draw(t, "gap2"), Burst: rapid.IntRange(0, 3).Draw(t, "tail"), Size: rapid.IntRange(12, 200).Draw(t, "tailsize")},
+		}}
+	})
 }
 
 func c31GenEPlan(allowFlood bool) *rapid.Generator[c31EPlan] {
@@ -604,9 +669,11 @@ func TestVerifC31Egress(t *testing.T) {
 	ev := vpNewEv(t, "C31", "egress")
 	rapid.Check(t, func(rt *rapid.T) {
 		c := &c31ECase{}
+		// every batch: one sustained-overload plan and at most one flood plan (each first-touches ~100 MB)
+		c.Plans = append(c.Plans, c31GenSustained().Draw(rt, "sustained"))
 		floods := 0
-		for i := 0; i < c31EPlansPerCase; i++ { // at most two flood plans per batch: each first-touches ~100 MB
-			p := c31GenEPlan(floods < 2).Draw(rt, "plan")
+		for i := 1; i < c31EPlansPerCase; i++ {
+			p := c31GenEPlan(floods < 1).Draw(rt, "plan")
 			for _, st := range p.Steps {
 				if st.Stall == "both" {
 					floods++
